@@ -84,6 +84,20 @@ Definition coo_reshape_shape (old : shape) (new : list Z) : res (list Z) :=
   else if existsb (fun d => d <? 0) new' then Raise ValueError
   else Ok new'.
 
+(* GCXS.reshape's own copy of the same steps, in ITS order: `-1` inference (generated), the
+   `self.shape == shape` shortcut, the size test (raise generated), then negative extents (rejected
+   downstream by NumPy, "negative dimensions are not allowed": ValueError, observed). *)
+Definition gcxs_reshape_shape (old : shape) (new : list Z) : res (list Z) :=
+  new' <- (if existsb (fun d => d =? -1) new
+           then (r <- g_gcxs_reshape_infer (pyints new) (VInt (size old)) ;;
+                 match r with VTuple [t] => unpyints t | _ => Raise TypeError end)
+           else Ok new) ;;
+  if idx_eqb old new' then Ok new'
+  else if negb (size old =? size new')
+  then (_ <- g_gcxs_reshape_size_mismatch (pyints new') (VInt (size old)) ;; Raise OtherError)
+  else if existsb (fun d => d <? 0) new' then Raise ValueError
+  else Ok new'.
+
 (* coords[-(i+1)] = (linear_loc // strides) % d, strides the product of the later extents *)
 Fixpoint unravel_strided (sh : shape) (n : Z) : idx :=
   match sh with
